@@ -214,7 +214,7 @@ def run(ctx):
 
     # ---- exhaustive equivalence of the decision functions
     rows1, bad1, reasons, _ = _policy_equiv(ctx, ctx.pick("RetryPolicy_emitq.cfg", "RetryPolicy_emit.cfg"), "decide")
-    rows2, bad2, _, _ = _policy_equiv(ctx, "RetryPolicy_send.cfg", "send")
+    rows2, bad2, _, _ = _policy_equiv(ctx, ctx.pick("RetryPolicy_sendq.cfg", "RetryPolicy_send.cfg"), "send")
     if len(reasons) < 9:
         raise vlib.Infra("vacuous: Decide reasons covered by the emitted domain: %s" % sorted(reasons))
     ctx.cov["evaluations"] = rows1 + rows2
